@@ -52,8 +52,10 @@ structure AStep (t : Rat) (slf tgt : Prop) (x y : Actor) : Prop where
   l_dying : ∀ d, y.life = .dying d → x.life = .dying d ∨ (d = t ∧ (x.life = .live ∨ x.life = .absent))
   l_dead : x.life = .dead → y.life = .dead
   l_gone : ∀ d, x.life = .dying d → y.life = .dying d ∨ y.life = .dead
-  kill : y.killAt = x.killAt ∨ (∃ kt, y.killAt = some kt ∧ t < kt) ∨ (x.life = .absent ∧ y.killAt = none)
-  susp : x.life = .live → y.life = .live → (y.suspended = x.suspended ∧ y.suspendedAt = x.suspendedAt) ∨ tgt
+  kill : x.life ≠ .absent → (y.killAt = x.killAt ∨ ∃ kt, y.killAt = some kt ∧ t < kt)
+  knew : x.life = .absent → y.life ≠ .absent → (y.killAt = none ∨ ∃ kt, y.killAt = some kt ∧ t < kt)
+  susp : x.life = .live → y.life = .live → x.suspended = true →
+    (y.suspended = true ∧ y.suspendedAt = x.suspendedAt) ∨ tgt
   prog : x.life = .live → y.life = .live → (y.pc = x.pc ∧ y.inJoin = x.inJoin) ∨ slf
   dmn : x.daemon = true → y.daemon = true
   pid : x.life ≠ .absent → y.pid = x.pid
@@ -61,7 +63,8 @@ structure AStep (t : Rat) (slf tgt : Prop) (x y : Actor) : Prop where
 theorem AStep.of_core {t : Rat} {slf tgt : Prop} {x y : Actor} (h : core y = core x) : AStep t slf tgt x y := by
   simp only [core, Prod.mk.injEq] at h
   obtain ⟨h1, h2, h3, h4, h5, h6, h7, h8, h9⟩ := h
-  refine ⟨h1, ?_, ?_, ?_, ?_, ?_, Or.inl h3, fun _ _ => Or.inl ⟨h4, h5⟩, fun _ _ => Or.inl ⟨h6, h7⟩, ?_, fun _ => h9⟩
+  refine ⟨h1, ?_, ?_, ?_, ?_, ?_, fun _ => Or.inl h3, fun hx hy => absurd (by rw [h2]; exact hx) hy,
+    fun _ _ hs => Or.inl ⟨by rw [h4]; exact hs, h5⟩, fun _ _ => Or.inl ⟨h6, h7⟩, ?_, fun _ => h9⟩
   · rw [h2]; exact id
   · rw [h2]; exact Or.inl
   · intro d; rw [h2]; exact Or.inl
@@ -73,8 +76,8 @@ theorem AStep.refl (t : Rat) (slf tgt : Prop) (x : Actor) : AStep t slf tgt x x 
 
 theorem AStep.weaken {t : Rat} {slf tgt slf' tgt' : Prop} {x y : Actor} (h : AStep t slf tgt x y)
     (h1 : slf → slf') (h2 : tgt → tgt') : AStep t slf' tgt' x y :=
-  ⟨h.ops, h.l_abs, h.l_live, h.l_dying, h.l_dead, h.l_gone, h.kill,
-   fun a b => (h.susp a b).imp id h2, fun a b => (h.prog a b).imp id h1, h.dmn, h.pid⟩
+  ⟨h.ops, h.l_abs, h.l_live, h.l_dying, h.l_dead, h.l_gone, h.kill, h.knew,
+   fun a b c => (h.susp a b c).imp id h2, fun a b => (h.prog a b).imp id h1, h.dmn, h.pid⟩
 
 theorem AStep.trans {t : Rat} {slf tgt : Prop} {x m y : Actor} (h1 : AStep t slf tgt x m) (h2 : AStep t slf tgt m y) :
     AStep t slf tgt x y := by
@@ -83,7 +86,7 @@ theorem AStep.trans {t : Rat} {slf tgt : Prop} {x m y : Actor} (h1 : AStep t slf
     rcases h2.l_live hy with h | h
     · exact h
     · have := h1.l_abs h; rw [hx] at this; cases this
-  refine ⟨by rw [h2.ops, h1.ops], fun h => h1.l_abs (h2.l_abs h), ?_, ?_, fun h => h2.l_dead (h1.l_dead h), ?_, ?_, ?_, ?_,
+  refine ⟨by rw [h2.ops, h1.ops], fun h => h1.l_abs (h2.l_abs h), ?_, ?_, fun h => h2.l_dead (h1.l_dead h), ?_, ?_, ?_, ?_, ?_,
     fun h => h2.dmn (h1.dmn h), ?_⟩
   · intro h
     rcases h2.l_live h with h' | h'
@@ -101,18 +104,26 @@ theorem AStep.trans {t : Rat} {slf tgt : Prop} {x m y : Actor} (h1 : AStep t slf
     rcases h1.l_gone d h with h' | h'
     · exact h2.l_gone d h'
     · exact Or.inr (h2.l_dead h')
-  · rcases h2.kill with k2 | ⟨kt, k2, hk⟩ | ⟨k2, k3⟩
-    · rcases h1.kill with k1 | ⟨kt, k1, hk⟩ | ⟨k1, k1'⟩
+  · intro hx
+    have hm : m.life ≠ .absent := fun e => hx (h1.l_abs e)
+    rcases h2.kill hm with k2 | ⟨kt, k2, hk⟩
+    · rcases h1.kill hx with k1 | ⟨kt, k1, hk⟩
       · exact Or.inl (by rw [k2, k1])
-      · exact Or.inr (Or.inl ⟨kt, by rw [k2, k1], hk⟩)
-      · exact Or.inr (Or.inr ⟨k1, by rw [k2, k1']⟩)
-    · exact Or.inr (Or.inl ⟨kt, k2, hk⟩)
-    · exact Or.inr (Or.inr ⟨h1.l_abs k2, k3⟩)
+      · exact Or.inr ⟨kt, by rw [k2, k1], hk⟩
+    · exact Or.inr ⟨kt, k2, hk⟩
   · intro hx hy
+    by_cases hm : m.life = .absent
+    · exact h2.knew hm hy
+    · rcases h2.kill hm with k2 | ⟨kt, k2, hk⟩
+      · rcases h1.knew hx hm with k1 | ⟨kt, k1, hk⟩
+        · exact Or.inl (by rw [k2, k1])
+        · exact Or.inr ⟨kt, by rw [k2, k1], hk⟩
+      · exact Or.inr ⟨kt, k2, hk⟩
+  · intro hx hy hs
     have hm := midlive hx hy
-    rcases h1.susp hx hm with ⟨a1, a2⟩ | a
-    · rcases h2.susp hm hy with ⟨b1, b2⟩ | b
-      · exact Or.inl ⟨by rw [b1, a1], by rw [b2, a2]⟩
+    rcases h1.susp hx hm hs with ⟨a1, a2⟩ | a
+    · rcases h2.susp hm hy a1 with ⟨b1, b2⟩ | b
+      · exact Or.inl ⟨b1, by rw [b2, a2]⟩
       · exact Or.inr b
     · exact Or.inr a
   · intro hx hy
@@ -131,12 +142,13 @@ theorem AStep.die (t : Rat) (slf tgt : Prop) (x : Actor) (bm : Bool) : AStep t s
   unfold Actor.die
   split
   · rename_i hl
-    refine ⟨rfl, ?_, ?_, ?_, ?_, ?_, Or.inl rfl, ?_, ?_, id, fun _ => rfl⟩
+    refine ⟨rfl, ?_, ?_, ?_, ?_, ?_, fun _ => Or.inl rfl, ?_, ?_, ?_, id, fun _ => rfl⟩
     · intro h; cases h
     · intro h; cases h
     · intro d h; right; simp only [Life.dying.injEq] at h; exact ⟨h.symm, Or.inl hl⟩
     · intro h; rw [hl] at h; cases h
     · intro d h; rw [hl] at h; cases h
+    · intro h; rw [hl] at h; cases h
     · intro _ h; cases h
     · intro _ h; cases h
   · exact AStep.refl t slf tgt x
